@@ -53,7 +53,15 @@ RULE = ("each run draws 1-3 plots, the options of the chain (MakeFilename varian
         "the MakeFilename rules. One scenario in four is the grouped variant: GroupBy, group_plots, "
         "MapGroup(ToCSV, MakeFilename, Write) write one csv per member and one tex / pdf / png per "
         "group of two plots; the members' output.changed must be combined into the group's. non-trivial = at least two runs with a change or a deletion; "
-        "distinct = distinct abstracted event-kind sequences")
+        "distinct = distinct abstracted event-kind sequences"
+        " Since the seeded rounds also: more MakeFilename variants (names from the context, empty"
+        " dirname / fileext, names built from the existing name, alternative names, optional"
+        " dirname, dirname set by its own element or derived from the name just set, names with a"
+        " directory part), MakeFilename in front of ToCSV, a SetContext in front of the chain, the"
+        " same pipeline object re-used for the whole history with RenderLaTeX's default"
+        " environment, template changes that only touch the final line terminator, image format"
+        " jpeg, failing converters, 100 clock ticks per second, both orders of Write and"
+        " group_plots in the grouped variant, and taint tracking past the known finding.")
 REAL = ["lena.flow.GroupBy, lena.flow.group_plots, lena.flow.MapGroup (grouped variant)", "lena.output.ToCSV", "lena.output.MakeFilename", "lena.output.Write", "lena.output.RenderLaTeX",
         "lena.output.LaTeXToPDF", "lena.output.PDFToPNG", "lena.core.Sequence", "lena.structures.histogram",
         "jinja2 (template loading through a FunctionLoader on the simulated disk, rendering)"]
